@@ -152,7 +152,24 @@ def native_differential(ctx):
                 continue            # wNAF paths are claimed below 2^255 only
             if val.strip() != wtxt:
                 bad.append((g, path, nm, k, cmd, val.strip(), wtxt))
-    chk.extra['native_differential'] = {'cases': len(cases), 'paths_per_case': 6, 'disagreements': len(bad),
+    # histories of one wNAF context: same base with a growing window, other base, other scalar, zero scalar after a long one
+    n2 = load.Native('release')
+    try:
+        hist = []
+        for (a_, b_, k_) in [(1, 7, (1 << 252) + 12345), (rnd.randrange(2, r), rnd.randrange(2, r), rnd.randrange(1 << 254)), (3, 3, (1 << 64) - 1)]:
+            hist.append((a_, b_, k_, 'wnaf_reuse %x %x %x' % (a_, b_, k_)))
+        houts = n2.run([h[3] for h in hist] + ['g1_mul %x' % (x % r) for h in hist for x in (h[0] * h[2], h[0] * h[2], h[1] * h[2], h[1] * 5, h[0] * 5, h[0] * h[2], h[1] * h[2], 0)])
+    finally:
+        n2.close()
+    labels = ['base(P,1).scalar(k)', 'base(P,100).scalar(k) after a smaller window on the same base', 'base(Q,1).scalar(k) after a larger window', 'base(Q,1).scalar(5)',
+              'scalar(5).base(P)', 'scalar(k).base(P) after a shorter scalar on the same base', 'scalar(k).base(Q)', 'scalar(0).base(Q) after a long scalar']
+    for hi, (a_, b_, k_, cmd) in enumerate(hist):
+        got = [x.strip() for x in houts[hi].split(' | ')]
+        wants = [x.strip() for x in houts[len(hist) + 8 * hi: len(hist) + 8 * hi + 8]]
+        for lab, g_, w_ in zip(labels, got, wants):
+            if g_ != w_:
+                bad.append(('G1', 'wnaf context reuse: ' + lab, 'P = [%#x]g' % a_, k_, cmd, g_, w_))
+    chk.extra['native_differential'] = {'cases': len(cases), 'paths_per_case': 6, 'wnaf_context_histories': len(hist), 'disagreements': len(bad),
                                         'role': 'supplementary oracle / replay target (special bases x structured scalars); the deciding method is the solver run'}
     seen = set()
     for (g, path, nm, k, cmd, got, wtxt) in bad:
